@@ -94,7 +94,41 @@ def systematic(tier):
         for t in CONTENT_TAGS:
             for first in CONTENT_ALPHABET:
                 out.append({'check': ID, 'exhaustive': True, 'content_of': t, 'decoder': dec, 'spec': None, 'first': first})
+    # constructed strings: every list of at most two fragments (a fragment = right/wrong/nested identifier with
+    # every content of length <= 2 over a small alphabet, or an empty nested constructed fragment), in the
+    # definite and the indefinite form, for three string types, with and without the type as guide
+    for dec in ('ber', 'cer', 'der'):
+        for t in (0x23, 0x24, 0x2c):
+            for form in ('d', 'i'):
+                for guided in (False, True):
+                    out.append({'check': ID, 'exhaustive': True, 'fragments_of': t, 'form': form, 'guided': guided,
+                                'decoder': dec, 'spec': None, 'first': 0})
     return out
+
+
+FRAG_ALPHABET = [0x00, 0x01, 0x07, 0x08, 0x80, 0xff]
+
+
+def _fragment_strings(t, form):
+    prim = t & 0x1f
+    other = 0x03 if prim != 0x03 else 0x04
+    frags = []
+    for n in (0, 1, 2):
+        for body in itertools.product(FRAG_ALPHABET, repeat=n):
+            frags.append(bytes([prim, n]) + bytes(body))
+    frags += [bytes([other, 0]), bytes([other, 1, 0]), bytes([t, 0]), bytes([t, 0x80, 0, 0]),
+              bytes([t, 2, prim, 0]), bytes([t, 0x80, prim, 0, 0, 0]), bytes([t, 3, prim, 1, 0])]
+    lists = [()] + [(a,) for a in frags] + [(a, b) for a in frags for b in frags]
+    for fl in lists:
+        body = b''.join(fl)
+        if form == 'd':
+            yield bytes([t]) + bytes.fromhex(corrupt._enc_len(len(body))) + body
+        else:
+            yield bytes([t, 0x80]) + body + b'\x00\x00'
+
+
+def _fragment_spec(t):
+    return {'k': {0x23: 'BITSTRING', 0x24: 'OCTETSTRING', 0x2c: 'UTF8'}[t], 'tags': []}
 
 
 # ---------------------------------------------------------------------------
@@ -273,7 +307,11 @@ def _exhaustive(plan):
     dec = U.decoder_module(plan['decoder'])
     spec = U.build_schema(plan['spec']) if plan['spec'] is not None else None
     first = plan['first']
-    if plan.get('content_of') is not None:
+    if plan.get('fragments_of') is not None:
+        strings = _fragment_strings(plan['fragments_of'], plan['form'])
+        if plan.get('guided'):
+            spec = U.build_schema(_fragment_spec(plan['fragments_of']))
+    elif plan.get('content_of') is not None:
         t = plan['content_of']
         strings = []
         for n in (0, 1, 2):
@@ -306,7 +344,7 @@ def _exhaustive(plan):
             res = common.violation_result(v, _sig(v), trace, ctr, None, None, {'kind': 'bytes'}, None)
             res['evals'] = ctr['exhaustive.strings']
             return res
-    trace.append(['exhaustive', plan['decoder'], first, ctr['exhaustive.strings']])
+    trace.append(['exhaustive', plan['decoder'], first, plan.get('fragments_of'), plan.get('form'), ctr['exhaustive.strings']])
     res = common.ok_result(trace, ctr, None, True)
     res['evals'] = ctr['exhaustive.strings']
     res['weight'] = ctr['exhaustive.strings']
